@@ -96,7 +96,8 @@ CHECKS = {
         technique="stateless DFS over goroutine schedules (deviation-bounded) including the computed-vs-enqueued window, on the real channel manager and TS manager",
         text="Streams multiplexed on one downstream channel with clock skew are run through the real handlers and TS manager under every schedule within the deviation bound over the yield points that separate collecting the begin timestamp, taking the channel lock, and enqueueing the computed pack; the emitted sequence per downstream channel is checked for tick-terminated packs, monotone ticks, data strictly after earlier ticks, internal timestamp agreement and preserved per-shard order.",
         note="Bounds: 2 streams x <= 3 packs, skew in {0,+1ms,+1s,-0.5s}, <= 2 deviations (3 thorough). The overtake defect (a pack computed earlier but enqueued later) is a recorded known finding; resume from persisted checkpoints is checked in the C05 fullstack harness.",
-        parts=[part("time", "core", "reader", "TestVerifC03Time", shards=(12, 16), budget=(150, 900), gomaxprocs=1)],
+        parts=[part("time", "core", "reader", "TestVerifC03Time", shards=(12, 16), budget=(150, 900), gomaxprocs=1),
+               part("resume", "server", ".", "TestVerifC03Resume", shards=(16, 16), budget=(150, 1200), gomaxprocs=1)],
     ),
     "C04": dict(
         level="exploration", engine="sched",
@@ -133,7 +134,8 @@ CHECKS = {
         technique="exhaustive enumeration of request kind x credential field x failure point (validation failure, store fault at every call index of create and of every follow-up operation) with the log core swapped for a buffer",
         text="Canary secrets are placed in every credential field of the three create request kinds; the request is sent through the real HTTP handler plain, with every adversarial validation variant, and with the metadata store failing at each call index of create and of the follow-up get/list/pause/resume/restart/delete/position sequence; every response body and every log line (debug level, process logger swapped for a buffer) is searched for the canaries.",
         note="Failure points are the first 8 store calls of create and the first 5 of each follow-up; one variant per kind runs the real connectivity probe against a closed loopback port. Log lines of third-party libraries that do not go through core/log are not captured.",
-        parts=[part("secrets", "server", ".", "TestVerifC18Secrets", shards=(8, 16), budget=(150, 600))],
+        parts=[part("secrets", "server", ".", "TestVerifC18Secrets", shards=(8, 16), budget=(150, 600)),
+               part("concurrent", "server", ".", "TestVerifC18Concurrent", shards=(8, 16), budget=(120, 600), gomaxprocs=1)],
     ),
     "C11": dict(
         level="model_checking", engine="seq",
